@@ -148,6 +148,12 @@ static void upipe_block_to_sound_input(struct upipe *upipe, struct uref *uref, s
 
     struct upipe_block_to_sound *upipe_block_to_sound = upipe_block_to_sound_from_upipe(upipe);
 
+    if (unlikely(upipe_block_to_sound->ubuf_mgr == NULL)) {
+        upipe_warn(upipe, "no ubuf manager yet, dropping uref");
+        uref_free(uref);
+        return;
+    }
+
     /* get block size */
     size_t block_size = 0;
     uref_block_size(uref, &block_size);
